@@ -84,6 +84,14 @@ impl Invariant for Inv06 {
 		let t = live.tree;
 		let case = || case_json(&self.inst, t, prefix);
 		let ev = prefix.last().unwrap();
+		if let Ev::RO(_) = ev {
+			// read-only queries, failing or not: nothing at all may change
+			if before != after {
+				rep.violation("read-only-query-changed-state", format!("{} ({}) changed the node's state: {:?}", ev.show(t), out.err, before.diff(after).into_iter().take(4).collect::<Vec<_>>()), case());
+			}
+			rep.outcome(&format!("untouched:read-only:{}", out.err));
+			return;
+		}
 		if let Ev::T(k) = ev {
 			// a transaction offered to the chain (the pool's gate), admitted or refused: nothing at all may change
 			let (ok, cls) = crate::c13::ref_validate_tx(t, live.model.head, &t.txs[*k].1);
@@ -160,7 +168,7 @@ impl Invariant for Inv06 {
 		// differential continuation: the valid block the bad one was derived from must now be
 		// processed exactly as by a twin that never saw the bad input
 		let t = live.tree;
-		if let Some(Ev::T(_)) = prefix.last() {
+		if let Some(Ev::T(_)) | Some(Ev::RO(_)) = prefix.last() {
 			// differential continuation: up to two valid blocks that can be delivered now are processed by this
 			// object (which has just judged the transaction) and by a twin that never saw it
 			let d = sc.fresh("twin");
@@ -254,6 +262,7 @@ fn run(tier: Tier, shard: usize, n: usize) -> Report {
 		let evs: Vec<Ev> = (0..tree.blocks.len()).filter(|i| !is_lift(*i) && tree.valid(*i).is_ok()).map(Ev::B).collect();
 		let mut probes: Vec<Ev> = (0..tree.blocks.len()).filter(|i| tree.valid(*i).is_err()).map(Ev::B).collect();
 		probes.extend((0..tree.txs.len()).map(Ev::T));
+		probes.extend((0..tree.blocks.len()).filter(|i| !tree.blocks[*i].name.starts_with('p')).map(Ev::RO));
 		// header-first delivery and header batches ending in a bad header
 		for i in 0..tree.blocks.len() {
 			if let Some(b) = &tree.blocks[i].bad {
